@@ -73,6 +73,20 @@ def r1(ctx, R):
             not all(l == "T" and t in chg for t, l in q.guards_of(rl, nt[0])):
         R.bad(rl, rl.node, "reload() updates formula.source but the cells keeps executing the old function",
               stmt="altfunc.notify()")
+    cac = ctx.func("BaseSpaceImpl.clear_all_cells")
+    n += 1
+    R.inst("clear_all_cells(recursive=True) reaches every level: the recursive call forwards all three flags")
+    rc = [c for c in q.calls(cac, name="clear_all_cells") if (call_recv(c) or "") != "self"]
+    sig = [a.arg for a in cac.node.args.args[1:]]
+
+    def _fw(c, name):
+        i = sig.index(name) if name in sig else -1
+        v = kw(c, name) or (c.args[i] if 0 <= i < len(c.args) else None)
+        return v is not None and (norm(v) == name or (name == "recursive" and isinstance(v, ast.Constant) and v.value is True))
+    if not rc or not all(_fw(rc[0], p_) for p_ in ("clear_input", "recursive", "del_items")) or \
+            ("recursive", "T") not in q.guards_of(cac, rc[0]):
+        R.bad(cac, rc[0] if rc else cac.node, "a recursive clear stops one level down: cells two or more levels below a renamed "
+              "space keep their values", stmt="recursive clear")
     # space rename
     sr = ctx.func("UserSpaceImpl.on_rename")
     for st, t in q.attr_writes(sr, attr="name", recv="self"):
